@@ -1,6 +1,6 @@
 CONSTANTS
   Settings <- ThoroughSettings
-  Family = "ABC"
+  Family = "ABCD"
 INIT Init
 NEXT Next
 INVARIANTS
